@@ -63,17 +63,22 @@ def keyOf (e : Env) : List Step → Bool → Bool
   | [], acc => acc
   | s :: ss, acc => keyOf e ss (match s.act with | .require .keyLoads => if s.guard.eval e then true else acc | _ => acc)
 
+def anonOf (e : Env) : List Step → Bool → Bool
+  | [], acc => acc
+  | s :: ss, acc => anonOf e ss (match s.act with | .setCipherList => if s.guard.eval e then e.cfg.ciphers == .enablesAnon else acc | _ => acc)
+
 theorem runSteps_eq (e : Env) (f : Files) (ss : List Step) (c : Ctx) :
     runSteps e f ss c =
       if refusedIn e f ss then none
       else some { role := c.role, verify := verifyOf e ss c.verify, minProto := minOf e ss c.minProto,
-                  trust := trustOf e ss c.trust, certLoaded := certOf e ss c.certLoaded, keyLoaded := keyOf e ss c.keyLoaded } := by
+                  trust := trustOf e ss c.trust, certLoaded := certOf e ss c.certLoaded, keyLoaded := keyOf e ss c.keyLoaded,
+                  anon := anonOf e ss c.anon } := by
   induction ss generalizing c with
-  | nil => simp [runSteps, refusedIn, verifyOf, minOf, trustOf, certOf, keyOf]
+  | nil => simp [runSteps, refusedIn, verifyOf, minOf, trustOf, certOf, keyOf, anonOf]
   | cons s ss ih =>
     obtain ⟨g, act⟩ := s
     cases hg : g.eval e
-    · simp [runSteps, stepCtx, hg, ih, refusedIn, stepRefuses, verifyOf, minOf, trustOf, certOf, keyOf]
+    · simp [runSteps, stepCtx, hg, ih, refusedIn, stepRefuses, verifyOf, minOf, trustOf, certOf, keyOf, anonOf]
       cases act <;> simp
       rename_i x; cases x <;> simp
     · cases act with
@@ -81,12 +86,13 @@ theorem runSteps_eq (e : Env) (f : Files) (ss : List Step) (c : Ctx) :
         cases hx : f.holds x
         · simp [runSteps, stepCtx, hg, hx, refusedIn, stepRefuses]
         · cases x <;>
-            simp [runSteps, stepCtx, hg, hx, ih, refusedIn, stepRefuses, verifyOf, minOf, trustOf, certOf, keyOf]
+            simp [runSteps, stepCtx, hg, hx, ih, refusedIn, stepRefuses, verifyOf, minOf, trustOf, certOf, keyOf, anonOf]
       | fail => simp [runSteps, stepCtx, hg, refusedIn, stepRefuses]
-      | setVerify fl => simp [runSteps, stepCtx, hg, ih, refusedIn, stepRefuses, verifyOf, minOf, trustOf, certOf, keyOf]
-      | defaultVerifyPaths => simp [runSteps, stepCtx, hg, ih, refusedIn, stepRefuses, verifyOf, minOf, trustOf, certOf, keyOf]
-      | applyFloor => simp [runSteps, stepCtx, hg, ih, refusedIn, stepRefuses, verifyOf, minOf, trustOf, certOf, keyOf]
-      | other n => simp [runSteps, stepCtx, hg, ih, refusedIn, stepRefuses, verifyOf, minOf, trustOf, certOf, keyOf]
+      | setVerify fl => simp [runSteps, stepCtx, hg, ih, refusedIn, stepRefuses, verifyOf, minOf, trustOf, certOf, keyOf, anonOf]
+      | defaultVerifyPaths => simp [runSteps, stepCtx, hg, ih, refusedIn, stepRefuses, verifyOf, minOf, trustOf, certOf, keyOf, anonOf]
+      | applyFloor => simp [runSteps, stepCtx, hg, ih, refusedIn, stepRefuses, verifyOf, minOf, trustOf, certOf, keyOf, anonOf]
+      | setCipherList => simp [runSteps, stepCtx, hg, ih, refusedIn, stepRefuses, verifyOf, minOf, trustOf, certOf, keyOf, anonOf]
+      | other n => simp [runSteps, stepCtx, hg, ih, refusedIn, stepRefuses, verifyOf, minOf, trustOf, certOf, keyOf, anonOf]
 
 end Iora.Tls
 
@@ -101,7 +107,7 @@ theorem buildCtx_eq (blk : CtxBlock) (role : Mode) (cfg : Cfg) (f : Files) :
         if refusedIn { cfg := cfg } f blk.steps then .refused
         else .built { role := role, verify := verifyOf { cfg := cfg } blk.steps [], minProto := minOf { cfg := cfg } blk.steps none,
                       trust := trustOf { cfg := cfg } blk.steps .none, certLoaded := certOf { cfg := cfg } blk.steps false,
-                      keyLoaded := keyOf { cfg := cfg } blk.steps false }
+                      keyLoaded := keyOf { cfg := cfg } blk.steps false, anon := anonOf { cfg := cfg } blk.steps false }
       else .absent := by
   unfold buildCtx
   simp only [runSteps_eq]
@@ -114,15 +120,16 @@ theorem server_built (cfg : Cfg) (f : Files) (c : Ctx) (h : buildCtx serverCtx .
     c.verify = (if cfg.verifyPeer then [.peer, .failIfNoPeerCert] else []) ∧
     c.minProto = applyFloorMin none cfg.minVersion ∧
     c.trust = (if cfg.verifyPeer && (cfg.caFileSet || cfg.caPathSet) then .locations cfg.caFileSet cfg.caPathSet else .none) ∧
-    c.certLoaded = (cfg.certFileSet && cfg.keyFileSet) ∧ c.keyLoaded = (cfg.certFileSet && cfg.keyFileSet) := by
+    c.certLoaded = (cfg.certFileSet && cfg.keyFileSet) ∧ c.keyLoaded = (cfg.certFileSet && cfg.keyFileSet) ∧
+    c.anon = (cfg.ciphers == .enablesAnon) := by
   rw [buildCtx_eq] at h
   split at h
   · split at h
     · cases h
     · injection h with h
       subst h
-      cases hv : cfg.verifyPeer <;> cases hf : cfg.caFileSet <;> cases hp : cfg.caPathSet <;>
-        simp [serverCtx, verifyOf, minOf, trustOf, certOf, keyOf, G.eval, Env.atom, hv, hf, hp]
+      cases hv : cfg.verifyPeer <;> cases hf : cfg.caFileSet <;> cases hp : cfg.caPathSet <;> cases hc : cfg.ciphers <;>
+        simp [serverCtx, verifyOf, minOf, trustOf, certOf, keyOf, anonOf, G.eval, Env.atom, hv, hf, hp, hc]
   · cases h
 
 /-- what a built client context looks like -/
@@ -130,15 +137,16 @@ theorem client_built (cfg : Cfg) (f : Files) (c : Ctx) (h : buildCtx clientCtx .
     c.role = .client ∧
     c.verify = (if cfg.verifyPeer then [.peer] else []) ∧
     c.minProto = applyFloorMin none cfg.minVersion ∧
-    c.trust = (if cfg.verifyPeer then (if cfg.caFileSet || cfg.caPathSet then .locations cfg.caFileSet cfg.caPathSet else .default) else .none) := by
+    c.trust = (if cfg.verifyPeer then (if cfg.caFileSet || cfg.caPathSet then .locations cfg.caFileSet cfg.caPathSet else .default) else .none) ∧
+    c.anon = (cfg.ciphers == .enablesAnon) := by
   rw [buildCtx_eq] at h
   split at h
   · split at h
     · cases h
     · injection h with h
       subst h
-      cases hv : cfg.verifyPeer <;> cases hf : cfg.caFileSet <;> cases hp : cfg.caPathSet <;>
-        simp [clientCtx, verifyOf, minOf, trustOf, G.eval, Env.atom, hv, hf, hp]
+      cases hv : cfg.verifyPeer <;> cases hf : cfg.caFileSet <;> cases hp : cfg.caPathSet <;> cases hc : cfg.ciphers <;>
+        simp [clientCtx, verifyOf, minOf, trustOf, anonOf, G.eval, Env.atom, hv, hf, hp, hc]
   · cases h
 
 /-- a context exists only if the block's creation guard holds -/
@@ -180,120 +188,137 @@ theorem server_refuses (cfg : Cfg) (f : Files) (he : cfg.enabled = true) (hm : c
 
 /-! ### the OpenSSL parameter equals the reference under the assumed semantics -/
 
+theorem ossl_clientTls_some (c : Ctx) (h : Option String) (a : Anchors) (p : SrvPeer) (v : Int) :
+    Ossl.clientTls c h a p = some v ↔
+      (c.lowest ≤ negotiated p.ceil ∧ p.cert.possession = true ∧
+        (c.verify.contains .peer = true → chains p.cert a = true ∧ p.cert.inTime = true ∧ nameOk h p.cert = true)) ∧
+      negotiated p.ceil = v := by
+  unfold Ossl.clientTls
+  cases hpe : c.verify.contains .peer <;>
+    simp [hpe, and_assoc]
+
+theorem ossl_serverTls_some (c : Ctx) (a : Anchors) (p : CliPeer) (v : Int) :
+    Ossl.serverTls c a p = some v ↔
+      (c.lowest ≤ negotiated p.ceil ∧ (c.certLoaded && c.keyLoaded) = true ∧
+        (c.verify.contains .peer = true → Ossl.clientCertOk c a p.cert = true)) ∧
+      negotiated p.ceil = v := by
+  unfold Ossl.serverTls
+  cases hpe : c.verify.contains .peer <;>
+    simp [hpe, and_assoc]
+
 theorem assumed_client {H : Handshake} (hA : H.Assumed) (c : Ctx) (h : Option String) (a : Anchors) (p : SrvPeer) :
     H.client c h a p = Ossl.client c h a p := by
   unfold Ossl.client
-  split
-  · rename_i hc
-    simp only [Bool.and_eq_true, beq_iff_eq, decide_eq_true_eq, Bool.or_eq_true, Bool.not_eq_true'] at hc
-    obtain ⟨⟨⟨hk, hv⟩, hp⟩, hver⟩ := hc
-    apply hA.client_complete c h a p hk hv hp
-    intro hpe
-    rcases hver with hn | hy
-    · rw [hpe] at hn; cases hn
-    · simpa [Bool.and_eq_true, and_assoc] using hy
-  · rename_i hc
-    cases hr : H.client c h a p with
-    | none => rfl
+  cases hk : p.kind with
+  | plaintext => exact hA.client_nontls c h a p (by simp [hk]) (by simp [hk])
+  | garbage => exact hA.client_nontls c h a p (by simp [hk]) (by simp [hk])
+  | anon => exact hA.client_anon c h a p hk
+  | tls =>
+    show H.client c h a p = Ossl.clientTls c h a p
+    cases hr : Ossl.clientTls c h a p with
     | some v =>
-      exfalso
-      apply hc
-      have hk := hA.client_tls_only c h a p v hr
-      have hv := (hA.client_version c h a p v hr)
-      have hp := hA.client_possession c h a p v hr
-      simp only [Bool.and_eq_true, beq_iff_eq, decide_eq_true_eq, Bool.or_eq_true, Bool.not_eq_true']
-      refine ⟨⟨⟨hk, ?_⟩, hp⟩, ?_⟩
-      · rw [← hv.1]; exact hv.2
-      · cases hpe : c.verify.contains .peer
-        · exact Or.inl rfl
-        · right
-          have hch := hA.client_verify c h a p v hr hpe
-          have hn : nameOk h p.cert = true := by
+      obtain ⟨⟨hv, hp, hver⟩, he⟩ := (ossl_clientTls_some c h a p v).mp hr
+      rw [← he]
+      exact hA.client_complete c h a p hk hv hp hver
+    | none =>
+      cases hr' : H.client c h a p with
+      | none => rfl
+      | some v =>
+        exfalso
+        have hv := hA.client_version c h a p v hk hr'
+        have hp := hA.client_possession c h a p v hk hr'
+        have : Ossl.clientTls c h a p = some v := by
+          refine (ossl_clientTls_some c h a p v).mpr ⟨⟨?_, hp, ?_⟩, hv.1.symm⟩
+          · rw [← hv.1]; exact hv.2
+          · intro hpe
+            have hch := hA.client_verify c h a p v hk hr' hpe
+            refine ⟨hch.1, hch.2, ?_⟩
             cases h with
             | none => rfl
-            | some n => exact hA.client_name c n a p v hr hpe
-          simp [hch.1, hch.2, hn]
+            | some n => exact hA.client_name c n a p v hk hr' hpe
+        rw [hr] at this; cases this
 
 theorem assumed_server {H : Handshake} (hA : H.Assumed) (c : Ctx) (a : Anchors) (p : CliPeer) :
     H.server c a p = Ossl.server c a p := by
   unfold Ossl.server
-  split
-  · rename_i hc
-    simp only [Bool.and_eq_true, beq_iff_eq, decide_eq_true_eq, Bool.or_eq_true, Bool.not_eq_true'] at hc
-    obtain ⟨⟨⟨hk, hv⟩, hck⟩, hver⟩ := hc
-    apply hA.server_complete c a p hk hv (by simp [hck])
-    intro hpe
-    rcases hver with hn | hy
-    · rw [hpe] at hn; cases hn
-    · cases hcc : p.cert with
-      | none => simpa [Ossl.clientCertOk, hcc] using hy
-      | some cc => simpa [Ossl.clientCertOk, hcc, Bool.and_eq_true, and_assoc] using hy
-  · rename_i hc
-    cases hr : H.server c a p with
-    | none => rfl
+  cases hk : p.kind with
+  | plaintext => exact hA.server_nontls c a p (by simp [hk]) (by simp [hk])
+  | garbage => exact hA.server_nontls c a p (by simp [hk]) (by simp [hk])
+  | anon => exact hA.server_anon c a p hk
+  | tls =>
+    show H.server c a p = Ossl.serverTls c a p
+    cases hr : Ossl.serverTls c a p with
     | some v =>
-      exfalso
-      apply hc
-      have hk := hA.server_tls_only c a p v hr
-      have hv := hA.server_version c a p v hr
-      have hck := hA.server_needs_cert c a p v hr
-      simp only [Bool.and_eq_true, beq_iff_eq, decide_eq_true_eq, Bool.or_eq_true, Bool.not_eq_true']
-      refine ⟨⟨⟨hk, ?_⟩, by simpa using hck⟩, ?_⟩
-      · rw [← hv.1]; exact hv.2
-      · cases hpe : c.verify.contains .peer
-        · exact Or.inl rfl
-        · right
-          cases hcc : p.cert with
-          | none => simpa [Ossl.clientCertOk] using hA.server_nocert c a p v hr hpe hcc
-          | some cc =>
-            have := hA.server_verify c a p v cc hr hpe hcc
-            simp [Ossl.clientCertOk, this.1, this.2.1, this.2.2]
-
-theorem ossl_client_some (c : Ctx) (h : Option String) (a : Anchors) (p : SrvPeer) (v : Int) :
-    Ossl.client c h a p = some v ↔
-      (p.kind = .tls ∧ c.lowest ≤ negotiated p.ceil ∧ p.cert.possession = true ∧
-        (c.verify.contains .peer = true → chains p.cert a = true ∧ p.cert.inTime = true ∧ nameOk h p.cert = true)) ∧
-      negotiated p.ceil = v := by
-  unfold Ossl.client
-  cases hpe : c.verify.contains .peer <;>
-    simp [hpe, and_assoc]
-
-theorem ossl_server_some (c : Ctx) (a : Anchors) (p : CliPeer) (v : Int) :
-    Ossl.server c a p = some v ↔
-      (p.kind = .tls ∧ c.lowest ≤ negotiated p.ceil ∧ (c.certLoaded && c.keyLoaded) = true ∧
-        (c.verify.contains .peer = true → Ossl.clientCertOk c a p.cert = true)) ∧
-      negotiated p.ceil = v := by
-  unfold Ossl.server
-  cases hpe : c.verify.contains .peer <;>
-    simp [hpe, and_assoc]
+      obtain ⟨⟨hv, hck, hver⟩, he⟩ := (ossl_serverTls_some c a p v).mp hr
+      rw [← he]
+      apply hA.server_complete c a p hk hv hck
+      intro hpe
+      have := hver hpe
+      cases hcc : p.cert with
+      | none => simpa [Ossl.clientCertOk, hcc] using this
+      | some cc => simpa [Ossl.clientCertOk, hcc, and_assoc] using this
+    | none =>
+      cases hr' : H.server c a p with
+      | none => rfl
+      | some v =>
+        exfalso
+        have hv := hA.server_version c a p v hk hr'
+        have hck := hA.server_needs_cert c a p v hk hr'
+        have : Ossl.serverTls c a p = some v := by
+          refine (ossl_serverTls_some c a p v).mpr ⟨⟨?_, hck, ?_⟩, hv.1.symm⟩
+          · rw [← hv.1]; exact hv.2
+          · intro hpe
+            cases hcc : p.cert with
+            | none => simpa [Ossl.clientCertOk] using hA.server_nocert c a p v hk hr' hpe hcc
+            | some cc =>
+              have := hA.server_verify c a p v cc hk hr' hpe hcc
+              simp [Ossl.clientCertOk, this.1, this.2.1, this.2.2]
+        rw [hr] at this; cases this
 
 /-- the reference satisfies the assumed semantics (the hypotheses are consistent) -/
 theorem ref_assumed : Ossl.ref.Assumed where
-  client_tls_only := fun c h a p v hr => ((ossl_client_some c h a p v).mp hr).1.1
-  client_version := fun c h a p v hr =>
-    let ⟨⟨_, hv, _⟩, he⟩ := (ossl_client_some c h a p v).mp hr
-    ⟨he.symm, he ▸ hv⟩
-  client_possession := fun c h a p v hr => ((ossl_client_some c h a p v).mp hr).1.2.2.1
-  client_verify := fun c h a p v hr hpe =>
-    let hh := ((ossl_client_some c h a p v).mp hr).1.2.2.2 hpe
-    ⟨hh.1, hh.2.1⟩
-  client_name := fun c n a p v hr hpe => by
-    have hh := ((ossl_client_some c (some n) a p v).mp hr).1.2.2.2 hpe
+  client_nontls := fun c h a p h1 h2 => by
+    simp only [Ossl.ref, Ossl.client]
+  client_anon := fun c h a p hk => by simp [Ossl.ref, Ossl.client, hk]
+  client_version := fun c h a p v hk hr => by
+    simp only [Ossl.ref, Ossl.client, hk] at hr
+    obtain ⟨⟨hv, _⟩, he⟩ := (ossl_clientTls_some c h a p v).mp hr
+    exact ⟨he.symm, he ▸ hv⟩
+  client_possession := fun c h a p v hk hr => by
+    simp only [Ossl.ref, Ossl.client, hk] at hr
+    exact ((ossl_clientTls_some c h a p v).mp hr).1.2.1
+  client_verify := fun c h a p v hk hr hpe => by
+    simp only [Ossl.ref, Ossl.client, hk] at hr
+    have hh := ((ossl_clientTls_some c h a p v).mp hr).1.2.2 hpe
+    exact ⟨hh.1, hh.2.1⟩
+  client_name := fun c n a p v hk hr hpe => by
+    simp only [Ossl.ref, Ossl.client, hk] at hr
+    have hh := ((ossl_clientTls_some c (some n) a p v).mp hr).1.2.2 hpe
     simpa [nameOk] using hh.2.2
-  client_complete := fun c h a p hk hv hp hver => (ossl_client_some c h a p _).mpr ⟨⟨hk, hv, hp, hver⟩, rfl⟩
-  server_tls_only := fun c a p v hr => ((ossl_server_some c a p v).mp hr).1.1
-  server_version := fun c a p v hr =>
-    let ⟨⟨_, hv, _⟩, he⟩ := (ossl_server_some c a p v).mp hr
-    ⟨he.symm, he ▸ hv⟩
-  server_needs_cert := fun c a p v hr => ((ossl_server_some c a p v).mp hr).1.2.2.1
-  server_verify := fun c a p v cc hr hpe hcc => by
-    have hh := ((ossl_server_some c a p v).mp hr).1.2.2.2 hpe
+  client_complete := fun c h a p hk hv hp hver => by
+    simp only [Ossl.ref, Ossl.client, hk]
+    exact (ossl_clientTls_some c h a p _).mpr ⟨⟨hv, hp, hver⟩, rfl⟩
+  server_nontls := fun c a p h1 h2 => by
+    simp only [Ossl.ref, Ossl.server]
+  server_anon := fun c a p hk => by simp [Ossl.ref, Ossl.server, hk]
+  server_version := fun c a p v hk hr => by
+    simp only [Ossl.ref, Ossl.server, hk] at hr
+    obtain ⟨⟨hv, _⟩, he⟩ := (ossl_serverTls_some c a p v).mp hr
+    exact ⟨he.symm, he ▸ hv⟩
+  server_needs_cert := fun c a p v hk hr => by
+    simp only [Ossl.ref, Ossl.server, hk] at hr
+    exact ((ossl_serverTls_some c a p v).mp hr).1.2.1
+  server_verify := fun c a p v cc hk hr hpe hcc => by
+    simp only [Ossl.ref, Ossl.server, hk] at hr
+    have hh := ((ossl_serverTls_some c a p v).mp hr).1.2.2 hpe
     simpa [Ossl.clientCertOk, hcc, and_assoc] using hh
-  server_nocert := fun c a p v hr hpe hcc => by
-    have hh := ((ossl_server_some c a p v).mp hr).1.2.2.2 hpe
+  server_nocert := fun c a p v hk hr hpe hcc => by
+    simp only [Ossl.ref, Ossl.server, hk] at hr
+    have hh := ((ossl_serverTls_some c a p v).mp hr).1.2.2 hpe
     simpa [Ossl.clientCertOk, hcc] using hh
   server_complete := fun c a p hk hv hck hver => by
-    refine (ossl_server_some c a p _).mpr ⟨⟨hk, hv, hck, ?_⟩, rfl⟩
+    simp only [Ossl.ref, Ossl.server, hk]
+    refine (ossl_serverTls_some c a p _).mpr ⟨⟨hv, hck, ?_⟩, rfl⟩
     intro hpe
     have := hver hpe
     cases hcc : p.cert with
@@ -343,10 +368,10 @@ theorem allMin_iff {p : MinSel → Bool} : allMin p = true ↔ ∀ b, p b = true
   · intro h b; simp only [allMin, Bool.and_eq_true] at h; obtain ⟨⟨⟨⟨h1, h2⟩, h3⟩, h4⟩, h5⟩ := h; cases b <;> assumption
   · intro h; simp [allMin, h]
 
-def allPeer (p : PeerKind → Bool) : Bool := p .tls && p .plaintext && p .garbage
+def allPeer (p : PeerKind → Bool) : Bool := p .tls && p .plaintext && p .garbage && p .anon
 theorem allPeer_iff {p : PeerKind → Bool} : allPeer p = true ↔ ∀ b, p b = true := by
   constructor
-  · intro h b; simp only [allPeer, Bool.and_eq_true] at h; obtain ⟨⟨h1, h2⟩, h3⟩ := h; cases b <;> assumption
+  · intro h b; simp only [allPeer, Bool.and_eq_true] at h; obtain ⟨⟨⟨h1, h2⟩, h3⟩, h4⟩ := h; cases b <;> assumption
   · intro h; simp [allPeer, h]
 
 def CliCell.all (p : CliCell → Bool) : Bool :=
@@ -511,24 +536,29 @@ open Iora.Gen.TlsCalls
 
 /-! ### the session machine: a TLS session is silent until the handshake is done and never writes raw bytes -/
 
-/-- a TLS session: mode set, state `handshake` or `open` -/
-def Sess.IsTls (s : Sess) : Prop := s.tlsMode ≠ .none ∧ s.tlsState ≠ .none
+/-- a TLS session: requested with TLS, mode set, state `handshake` or `open` -/
+def Sess.IsTls (s : Sess) : Prop := s.req ≠ .none ∧ s.tlsMode ≠ .none ∧ s.tlsState ≠ .none
 
 /-- still before the successful end of the handshake (or already closed) -/
-def Sess.Pending (s : Sess) : Prop := s.tlsMode ≠ .none ∧ (s.tlsState = .handshake ∨ s.closed = true) ∧ s.announced = false
+def Sess.Pending (s : Sess) : Prop :=
+  s.req ≠ .none ∧ s.tlsMode ≠ .none ∧ (s.tlsState = .handshake ∨ s.closed = true) ∧ s.announced = false
 
-theorem flush_tls_no_raw (q : List (List UInt8)) (bs : List UInt8) : SOut.rawWire bs ∉ flush true q := by
-  simp [flush]
+/-- the event "`SSL_do_handshake` returned 1" -/
+def SEv.isHsOk : SEv → Bool
+  | .epoll _ (some true) => true
+  | _ => false
 
 theorem sessStep_tls (s : Sess) (ev : SEv) (h : s.IsTls) :
     (sessStep s ev).1.IsTls ∧ ∀ bs, SOut.rawWire bs ∉ (sessStep s ev).2 := by
-  obtain ⟨mode, st, pend, ann, closed, wq⟩ := s
-  obtain ⟨hm, hs⟩ := h
-  simp only at hm hs
-  cases mode <;> cases st <;> simp at hm hs <;> cases closed <;> cases pend <;> cases ev <;>
-    (try rename_i rc; rcases rc with _ | _ | _) <;>
-    simp [sessStep, Sess.IsTls, flush, handshakeDrivenFirst, plainAnnounceRequiresModeNone, wantIoKeepsHandshake, failureCloses,
-      openOnlyOnRc1, connectCbOnlyOnRc1, sendQueuedDuringHandshake, sendGuardPrecedesIo, rawSendOnlyWhenNotOpenTls]
+  obtain ⟨req, mode, st, pend, ann, closed, wq⟩ := s
+  obtain ⟨hr, hm, hs⟩ := h
+  simp only at hr hm hs
+  cases req <;> simp at hr <;> cases mode <;> simp at hm <;> cases st <;> simp at hs <;> cases closed <;> cases pend <;>
+    cases ev <;> (try rename_i out rc; cases out <;> rcases rc with _ | _ | _) <;> cases wq <;>
+    simp [sessStep, driveHs, leakOnIncomplete, writePending, announce, Sess.IsTls, Sess.inHs, Sess.openTls,
+      handshakeDrivenFirst, handshakeReturnsWhenIncomplete, plainAnnounceRequiresModeNone, immediateAnnounceRequiresReqNone,
+      wantIoKeepsHandshake, failureCloses, openOnlyOnRc1, connectCbOnlyOnRc1, sendQueuedDuringHandshake, sendGuardPrecedesIo,
+      doSendSslWhenOpenTls, writePendingSslWhenOpenTls, writePendingSkipsHandshake]
 
 theorem sessRun_tls_no_raw (s : Sess) (evs : List SEv) (h : s.IsTls) : ∀ bs, SOut.rawWire bs ∉ sessRun s evs := by
   induction evs generalizing s with
@@ -539,28 +569,52 @@ theorem sessRun_tls_no_raw (s : Sess) (evs : List SEv) (h : s.IsTls) : ∀ bs, S
     exact ⟨(sessStep_tls s e h).2 bs, ih _ (sessStep_tls s e h).1 bs⟩
 
 /-- without a successful `SSL_do_handshake` the session stays pending and emits nothing but (at most) its close -/
-theorem sessStep_pending (s : Sess) (ev : SEv) (h : s.Pending) (hev : ev ≠ .handshake (some true)) :
+theorem sessStep_pending (s : Sess) (ev : SEv) (h : s.Pending) (hev : ev.isHsOk = false) :
     (sessStep s ev).1.Pending ∧ ∀ o ∈ (sessStep s ev).2, o = .onClose := by
-  obtain ⟨mode, st, pend, ann, closed, wq⟩ := s
-  obtain ⟨hm, hs, ha⟩ := h
-  simp only at hm hs ha
+  obtain ⟨req, mode, st, pend, ann, closed, wq⟩ := s
+  obtain ⟨hr, hm, hs, ha⟩ := h
+  simp only at hr hm hs ha
   subst ha
-  cases mode <;> simp at hm <;> cases closed <;> cases st <;> simp at hs <;> cases pend <;> cases ev <;>
-    (try rename_i rc; rcases rc with _ | _ | _) <;>
-    simp [sessStep, Sess.Pending, flush, handshakeDrivenFirst, plainAnnounceRequiresModeNone, wantIoKeepsHandshake, failureCloses,
-      openOnlyOnRc1, connectCbOnlyOnRc1, sendQueuedDuringHandshake, sendGuardPrecedesIo, rawSendOnlyWhenNotOpenTls] at hev ⊢
+  cases req <;> simp at hr <;> cases mode <;> simp at hm <;> cases closed <;> cases st <;> simp at hs <;> cases pend <;>
+    cases ev <;> (try rename_i out rc; cases out <;> rcases rc with _ | _ | _) <;> cases wq <;>
+    simp [SEv.isHsOk] at hev <;>
+    simp [sessStep, driveHs, leakOnIncomplete, writePending, announce, Sess.Pending, Sess.inHs, Sess.openTls,
+      handshakeDrivenFirst, handshakeReturnsWhenIncomplete, plainAnnounceRequiresModeNone, immediateAnnounceRequiresReqNone,
+      wantIoKeepsHandshake, failureCloses, openOnlyOnRc1, connectCbOnlyOnRc1, sendQueuedDuringHandshake, sendGuardPrecedesIo,
+      doSendSslWhenOpenTls, writePendingSslWhenOpenTls, writePendingSkipsHandshake]
 
-theorem sessRun_pending (s : Sess) (evs : List SEv) (h : s.Pending) (hev : SEv.handshake (some true) ∉ evs) :
+theorem sessRun_pending (s : Sess) (evs : List SEv) (h : s.Pending) (hev : ∀ e ∈ evs, e.isHsOk = false) :
     ∀ o ∈ sessRun s evs, o = .onClose := by
   induction evs generalizing s with
   | nil => simp [sessRun]
   | cons e es ih =>
     intro o ho
-    simp only [List.mem_cons, not_or] at hev
     simp only [sessRun, List.mem_append] at ho
-    have hst := sessStep_pending s e h (fun heq => hev.1 heq.symm)
+    have hst := sessStep_pending s e h (hev e (List.mem_cons_self ..))
     rcases ho with ho | ho
     · exact hst.2 o ho
-    · exact ih _ hst.1 hev.2 o ho
+    · exact ih _ hst.1 (fun e' he' => hev e' (List.mem_cons_of_mem _ he')) o ho
+
+/-! ### `HttpClient` configuration history -/
+
+/-- the settings in force are the settings last accepted by `setTlsConfig` -/
+def HState.Coherent (s : HState) : Prop := s.applied = none ∨ s.applied = some s.stored
+
+theorem hStep_coherent (s : HState) (o : HOp) (h : s.Coherent) : (hStep s o).1.Coherent := by
+  cases o with
+  | touch =>
+    rcases h with h | h <;> simp [hStep, HState.Coherent, h]
+  | setTls c =>
+    simp only [hStep, setTlsConfigRejectsChangeAfterInit, Bool.true_and]
+    rcases h with h | h
+    · simp [HState.Coherent, h]
+    · by_cases hc : s.stored = c
+      · subst hc; simp [HState.Coherent, h]
+      · simp [HState.Coherent, h, hc]
+
+theorem hRun_coherent (s : HState) (ops : List HOp) (h : s.Coherent) : (hRun s ops).Coherent := by
+  induction ops generalizing s with
+  | nil => exact h
+  | cons o os ih => exact ih _ (hStep_coherent s o h)
 
 end Iora.Tls
